@@ -550,7 +550,8 @@ func main() {
 		}
 		check(r, w, f, am, c, 1)
 		fmt.Printf("replayed %s auth=%s variant=%s\n", opNames[c.Op], am[c.Auth], xMenu(c.Op)[c.X].Name)
-		r.Finish()
+		irworld.CloseAll()
+	r.Finish()
 	}
 	var cases []ccase
 	for op := 0; op < opCount; op++ {
@@ -613,5 +614,6 @@ func main() {
 		"'only permitted system attributes may be present' is applied to the created container; names given to setAttribute/removeAttribute are enumerated but only authorisation is judged for them",
 		"creation with a token bound to / naming a container id is executed but not judged (the text does not say what 'that container' is before creation)",
 		"chain time 2000 s, epoch 10; requests' ValidUntil is far in the future")
+	irworld.CloseAll()
 	r.Finish()
 }
